@@ -51,7 +51,12 @@ META = {
                   "oneHot_agree_partial (+ refutation), and one theorem per catalogue entry (≈75 regenerated "
                   "recipes: integer div/rem/floor_divide/mod/sign/abs/neg/max/min/clamp/clip/integer_pow, "
                   "comparisons, select_n, boolean and bitwise ops, shifts, conversions, round/floor/ceil, "
-                  "argmax/argmin, cumsum, one_hot) quantified over all inputs of the stated exact domain. "
+                  "argmax/argmin, cumsum, one_hot) quantified over all inputs of the stated exact domain; "
+                  "round 2: 27 tensor-level entries as whole dataflow graphs (rev/flip, roll, pad of either sign, iota/arange, "
+                  "reduce max/min/sum/prod/all/any incl. the empty reduction, cummax/cummin through MaxPool, dynamic_slice "
+                  "(partial + refuted), take clip/wrap, x[idx] (partial + refuted), sort/argsort/top_k tie order) with "
+                  "all-length operator theorems in Props/C01Tensor (onnxPad_eq_jaxPad, onnxTopK_eq_stableSort, "
+                  "maxPool_prefix_eq_cummax, reduceMin_of_bits_eq_all …). "
                   "PARTIAL: everything outside the catalogue (≈1770 plugin testcases) is executed, not proved.",
     "level_note": "Proof covers composition + the catalogue; ℤ statements carry the formal no-overflow "
                   "hypothesis (noOverflow ⇒ fixed = ideal); floats are modelled over ℚ (exact on the inputs "
@@ -63,7 +68,8 @@ META = {
     "design_ref": "DESIGN.md §3 C01",
 }
 
-MODS = ["J2O.Props.C01", "J2O.GenProps.C01", "J2O.GenProps.C01Bits"]
+MODS = ["J2O.Props.C01", "J2O.Props.C01Tensor", "J2O.GenProps.C01", "J2O.GenProps.C01Bits",
+        "J2O.GenProps.C01Tensor", "J2O.GenProps.C01Index"]
 CORPUS = common.VERIF / "corpus"
 COSTS = CORPUS / "C01-costs.json"
 
@@ -85,7 +91,11 @@ def generate() -> dict:
     bits, main, info = C.generate_sources(es)
     write_if_changed(LEAN / "J2O/Gen/C01Bits.lean", bits)
     write_if_changed(LEAN / "J2O/Gen/C01.lean", main)
-    _GEN_CACHE.update({"entries": es, "info": info, "models": info.pop("__models__")})
+    ges = C.gentries()
+    gsrc, ginfo = C.generate_graph_source(ges)
+    write_if_changed(LEAN / "J2O/Gen/C01Tensor.lean", gsrc)
+    _GEN_CACHE.update({"entries": es, "info": info, "models": info.pop("__models__"), "gentries": ges,
+                       "ginfo": ginfo})
     return _GEN_CACHE
 
 
@@ -611,6 +621,276 @@ def validate_tensor(chk: Check, rng: common.Rng, gen: dict):
     return mism, tie_bad
 
 
+
+# ----------------------------------------------------------------------------- round 2: dataflow recipes
+
+
+def tn_str(a) -> str:
+    """numpy array -> the driver's tensor syntax (booleans 0/1, integer-valued floats as integers)."""
+    a = np.asarray(a)
+    flat = a.reshape(-1)
+    if a.dtype.kind == "f":
+        if not all(np.isfinite(v) and float(v) == int(v) for v in flat):
+            return "nonint"
+    return "x".join(str(int(d)) for d in a.shape) + ":" + ",".join(str(int(v)) for v in flat)
+
+
+def graph_inputs(e, rng: common.Rng, thorough: bool, extent: Optional[int] = None) -> list[list]:
+    """Input lists for one dataflow entry (pattern-directed: ties, extremes, every index around the
+    bounds, every boolean vector)."""
+    import itertools
+    cols = []
+    for gi, g in enumerate(e.gens):
+        kind, n = g[0], g[1]
+        if gi == 0 and extent is not None:
+            n = extent
+        isf = np.dtype(e.in_dts[gi]).kind == "f"
+        big = 2 ** 24 if isf else 2 ** 31 - 1
+        if kind in ("vals", "ties", "small", "mid"):
+            base = [list(t) for t in itertools.product([0, 1, 2], repeat=n)]
+            base = base[::max(1, len(base) // (60 if not thorough else 300))]
+            r = 3 if kind in ("small", "ties") else 9
+            base += [[rng.randint(-r, r) for _ in range(n)] for _ in range(40)]
+            if kind in ("vals", "ties"):
+                base += [[big, -big - (0 if isf else 1)] * (n // 2) + [0] * (n % 2), [-big - (0 if isf else 1)] * n,
+                         [big] * n, [0, -big - (0 if isf else 1), 5, 1, -5, 9][:n] + [0] * max(0, n - 6)]
+            if kind == "mid":
+                base += [[10 ** 6, -10 ** 6] * (n // 2) + [7] * (n % 2)]
+            base += [list(range(n)), list(range(n, 0, -1)), [5] * n]
+            cols.append([b[:n] for b in base] if n else [[]])
+        elif kind == "bools":
+            cols.append([list(t) for t in itertools.product([0, 1], repeat=n)])
+        elif kind == "idx":
+            ext = g[2]
+            pts = list(range(-2 * ext - 1, 2 * ext + 2)) + [2 ** 31 - 1, -2 ** 31]
+            rows = [pts[a:a + n] + [0] * (n - len(pts[a:a + n])) for a in range(0, len(pts), n)]
+            rows += [[rng.randint(-ext, ext - 1) for _ in range(n)] for _ in range(20)]
+            cols.append(rows)
+        elif kind == "start":
+            ext = g[1]
+            cols.append([[v] for v in list(range(-2 * ext - 1, 2 * ext + 2)) + [2 ** 31 - 1 - 2 * ext, -2 ** 31, 100, -100]])
+        else:
+            raise ValueError(kind)
+    if len(cols) == 1:
+        return [[c] for c in cols[0]]
+    # data column × index column: every index row with a few data rows
+    data = cols[0][-8:] + cols[0][:4]
+    out = []
+    for k, row in enumerate(cols[1]):
+        out.append([data[k % len(data)], row])
+        out.append([data[(k + 5) % len(data)], row])
+    return out
+
+
+def _model_with_intermediates(model):
+    import onnx
+    m = onnx.ModelProto()
+    m.CopyFrom(model)
+    try:
+        inferred = onnx.shape_inference.infer_shapes(m, strict_mode=False)
+    except Exception:
+        return m, []
+    have = {o.name for o in m.graph.output}
+    vis = {vi.name: vi for vi in inferred.graph.value_info}
+    extra = []
+    for n in m.graph.node:
+        for o in n.output:
+            if o and o not in have and o in vis and vis[o].type.tensor_type.elem_type != 0:
+                m.graph.output.append(vis[o])
+                extra.append(o)
+                have.add(o)
+    return m, extra
+
+
+def validate_graphs(chk: Check, rng: common.Rng, gen: dict, thorough: bool):
+    """Dataflow entries: ORT on the real exported model (every intermediate value) vs the Lean evaluation
+    of the regenerated recipe (tie), ORT vs eager JAX (the property oracle), jaxSemT vs eager JAX (tie)."""
+    import jax.numpy as jnp
+    lines, meta, oracle = [], [], []
+    stats: dict[str, dict] = {}
+    for e in gen["gentries"]:
+        gi = gen["ginfo"][e.name]
+        st = stats.setdefault(e.name, {"inputs": 0, "oracle_mismatch": 0, "nodes": gi["nodes"]})
+        if gi["generic_bad"]:
+            st["not_length_generic"] = gi["generic_bad"]
+        variants = [(None, gi["model"], gi["tr"])] + [(n, m, None) for n, m in sorted(gi["other_models"].items())]
+        for extent, model, tr in variants:
+            if model is None:
+                st["export_error"] = gi["export_error"]
+                continue
+            sess, names, rejected = None, [], None
+            try:
+                m2, _ = _model_with_intermediates(model)
+                sess = _ort_session(m2)
+                names = [o.name for o in sess.get_outputs()]
+            except Exception as ex:
+                try:        # the intermediates themselves may be the problem: plain model
+                    sess = _ort_session(model)
+                    names = [o.name for o in sess.get_outputs()]
+                except Exception as ex2:
+                    rejected = str(ex2)[:200]
+            if extent is None:
+                st["ort"] = "ok" if rejected is None else "rejected: " + rejected
+            n_out = len(model.graph.output)
+            all_inputs = graph_inputs(e, rng, thorough, extent)
+            if extent is not None:
+                all_inputs = all_inputs[:: max(1, len(all_inputs) // 25)]
+            for ins in all_inputs:
+                arrs = [np.asarray(v, dtype=dt) for v, dt in zip(ins, e.in_dts)]
+                arrs = [a.reshape(-1) for a in arrs]
+                try:
+                    jo = e.fn(*[jnp.asarray(a) for a in arrs])
+                    jo = [np.asarray(v) for v in (jo if isinstance(jo, (tuple, list)) else [jo])]
+                    jv = " ".join(tn_str(v) for v in jo)
+                except Exception as ex:
+                    jv = "jax-error"
+                ort_vals: Optional[dict] = None
+                ov = "model-rejected"
+                if sess is not None:
+                    try:
+                        res = sess.run(None, {i.name: a for i, a in zip(sess.get_inputs(), arrs)})
+                        ort_vals = {nm: tn_str(v) for nm, v in zip(names, res)}
+                        ov = " ".join(ort_vals[o.name] for o in model.graph.output)
+                    except Exception as ex:
+                        ov = "ort-error"
+                st["inputs"] += 1
+                kind = e.kinds(ins) if e.kinds else "other"
+                ideal = e.ideal_ok(ins) if e.ideal_ok else True
+                if not ideal:
+                    kind = "overflow"
+                if rejected is not None:
+                    kind = "ort_rejects_model"
+                if ov != jv and jv != "jax-error":
+                    st["oracle_mismatch"] += 1
+                    oracle.append({"entry": e.name, "jax_key": e.jax, "input": ins, "ort": ov, "jax": jv, "kind": kind,
+                                   "extent": extent})
+                if not ideal:       # outside the no-overflow domain of the ℤ statement: oracle only
+                    continue
+                tline = " ".join(tn_str(a) for a in arrs)
+                lines.append(f"grecipe {e.name} {tline}")
+                meta.append(("recipe", e, ins, (ov, ort_vals, tr or gi["tr"], n_out)))
+                if jv != "jax-error":
+                    lines.append(f"gjax {e.jax} / {tline}")
+                    meta.append(("jax", e, ins, jv))
+    ans = yield lines
+    tie_bad, jax_bad = [], []
+    for (what, e, ins, real), a in zip(meta, ans):
+        if what == "jax":
+            ok = a == real
+            chk.count({"stage": "graph-jax", "entry": e.name, "input": ins, "real": real, "lean": a}, nontrivial=True,
+                      sample_every=500)
+            if not ok:
+                jax_bad.append({"entry": e.name, "input": ins, "jax": real, "lean": a})
+            continue
+        ov, ort_vals, tr, n_out = real
+        parts = a.split(" ")
+        status, vals = parts[0], parts[1:]
+        bad = None
+        if ort_vals is None:
+            if status != "fail":
+                bad = f"ORT {ov}, the Lean recipe evaluates"
+        elif status != "ok":
+            bad = f"ORT runs, the Lean recipe fails at value {len(vals)} ({tr['names'][len(vals)] if len(vals) < len(tr['names']) else '?'})"
+        else:
+            for pos, nm in enumerate(tr["names"]):
+                if nm in ort_vals and pos < len(vals) and ort_vals[nm] != "nonint" and vals[pos] != ort_vals[nm]:
+                    bad = f"value {nm}: ORT {ort_vals[nm]} Lean {vals[pos]}"
+                    break
+        chk.count({"stage": "graph-recipe", "entry": e.name, "input": ins, "ort": ov, "lean": status,
+                   "values_compared": 0 if ort_vals is None else len(ort_vals)}, nontrivial=True, sample_every=500)
+        if bad:
+            tie_bad.append({"what": "graph-recipe", "entry": e.name, "input": ins, "why": bad})
+    chk.info("dataflow_entries", stats)
+    return oracle, tie_bad, jax_bad
+
+
+# (onnx op, attrs, driver op tokens, [(dtype, value)…] inputs) — operator models with attribute / argument
+# values the current recipes do not use (the recipes' own use is compared on every intermediate value)
+def gop_table():
+    I64, I32, F32 = 7, 6, 1
+    v = [3, -1, 4, 1, -5, 9]
+    t = []
+    for lo, hi in [(2, 1), (-2, 1), (1, -3), (0, 0), (-3, -3), (-1, 4), (-6, 0)]:
+        t.append(("Pad", {"mode": "constant"}, "pad", [(I32, v), (I64, [lo, hi]), (I32, 7)], I32))
+    for s, e_ in [(4, 6), (0, 4), (-2, 6), (2, -1), (-9, 3), (4, 99), (5, 2), (-1, -9), (7, 9), (2 ** 31, 2 ** 33)]:
+        t.append(("Slice", {}, "slice", [(I32, v), (I64, [s]), (I64, [e_]), (I64, [0]), (I64, [1])], I32))
+        t.append(("Slice", {}, "slice", [(I32, v), (I64, [s]), (I64, [e_])], I32))
+    for s, l, d in [(0, 6, 1), (2, 14, 2), (2, 13, 2), (5, 0, -1), (5, 0, 1), (0, 0, 1), (-3, 4, 3), (7, -8, -4)]:
+        t.append(("Range", {}, "range", [(I64, s), (I64, l), (I64, d)], I64))
+    for idx in [[0, 5], [-1, -6], [3], [2, -2, 2]]:
+        t.append(("Gather", {"axis": 0}, "gather 0", [(I32, v), (I64, idx)], I32))
+        t.append(("GatherElements", {"axis": 0}, "gatherElements 0", [(I32, v), (I64, idx)], I32))
+    t.append(("Gather", {"axis": 0}, "gather 0", [(I32, v), (I64, 4)], I32))
+    for data in [[2, 1, 2, 1, 0, 2], [5, 5, 5, 5, 5, 5], v, [0, -1, 0, -1, 7, 7]]:
+        for lg in (0, 1):
+            for k in (1, 3, 6):
+                for idx in (0, 1):
+                    t.append(("TopK", {"axis": 0, "largest": lg, "sorted": 1}, f"topk {idx} 0 {lg} 1",
+                              [(I32, data), (I64, [k])], (I32, I64)[idx], idx))
+    for op, k in [("ReduceMax", "max"), ("ReduceMin", "min"), ("ReduceSum", "sum"), ("ReduceProd", "prod")]:
+        for data in [v, [4], []]:
+            for dt in (I32, I64):
+                for keep in (0, 1):
+                    t.append((op, {"keepdims": keep}, f"reduce {k} {keep}", [(dt, data)], dt))
+    for k, pl, pr in [(6, 5, 0), (6, 0, 5), (3, 2, 0), (3, 1, 1), (2, 0, 0), (1, 0, 0), (4, 3, 3)]:
+        t.append(("MaxPool", {"kernel_shape": [k], "strides": [1], "pads": [pl, pr]}, f"maxPool {k} {pl} {pr}",
+                  [(F32, np.asarray(v, np.float32).reshape(1, 1, 6))], F32))
+    for f, tok in [("Add", "add"), ("Sub", "sub"), ("Mul", "mul"), ("Div", "div"), ("Max", "max"), ("Min", "min"),
+                   ("Less", "less"), ("Greater", "greater"), ("Equal", "equal")]:
+        t.append((f, {}, f"bin {tok}", [(I32, v), (I32, [2, -1, 4, -3, 2, 9])], 9 if f in ("Less", "Greater", "Equal") else I32))
+        t.append((f, {}, f"bin {tok}", [(I32, v), (I32, 2)], 9 if f in ("Less", "Greater", "Equal") else I32))
+        t.append((f, {}, f"bin {tok}", [(I32, -2), (I32, v)], 9 if f in ("Less", "Greater", "Equal") else I32))
+    t.append(("Where", {}, "where", [(9, [1, 0, 1, 0, 0, 1]), (I32, v), (I32, 7)], I32))
+    t.append(("Where", {}, "where", [(9, [1, 0, 1, 0, 0, 1]), (I32, -7), (I32, v)], I32))
+    t.append(("Expand", {}, "expand", [(I64, 3), (I64, [4])], I64))
+    t.append(("Expand", {}, "expand", [(I64, np.asarray([[1], [2]])), (I64, [2, 1])], I64))
+    t.append(("Reshape", {}, "reshape", [(I32, v), (I64, [3, 2])], I32))
+    t.append(("Squeeze", {}, "squeeze", [(I64, [6]), (I64, [0])], I64))
+    t.append(("Unsqueeze", {}, "unsqueeze", [(I64, 6), (I64, [0])], I64))
+    t.append(("Unsqueeze", {}, "unsqueeze", [(I64, [6, 2]), (I64, [1])], I64))
+    t.append(("Shape", {}, "shape", [(I32, np.zeros((2, 3), np.int32))], I64))
+    t.append(("Concat", {"axis": 0}, "concat 0", [(I32, v), (I32, [1]), (I32, [])], I32))
+    return t
+
+
+_NP_OF_ONNX = {1: np.float32, 6: np.int32, 7: np.int64, 9: np.bool_}
+_DT_NAME = {1: "f32", 6: "i32", 7: "i64", 9: "bool"}
+
+
+def validate_gops(chk: Check):
+    """Lean `GOp.eval` against ONNX Runtime on single-operator models (inputs as initializers)."""
+    from onnx import helper, numpy_helper
+    lines, meta = [], []
+    for row in gop_table():
+        op, attrs, tok, ins, odt = row[:5]
+        which = row[5] if len(row) > 5 else 0
+        arrs = [np.asarray(v, dtype=_NP_OF_ONNX[dt]) for dt, v in ins]
+        inits = [numpy_helper.from_array(a, f"c{i}") for i, a in enumerate(arrs)]
+        n_out = 2 if op == "TopK" else 1
+        node = helper.make_node(op, [f"c{i}" for i in range(len(arrs))], [f"y{j}" for j in range(n_out)], **attrs)
+        outs = [helper.make_tensor_value_info(f"y{j}", (odt if j == which else (7 if j == 1 else ins[0][0])), None)
+                for j in range(n_out)]
+        g = helper.make_graph([node], "g", [], outs, initializer=inits)
+        m = helper.make_model(g, opset_imports=[helper.make_opsetid("", 23)])
+        m.ir_version = 10
+        try:
+            res = _ort_session(m).run(None, {})
+            real = tn_str(res[which])
+        except Exception as ex:
+            real = "none"
+        lines.append(f"gop {_DT_NAME[odt]} {_DT_NAME[ins[0][0]]} {tok} / " + " ".join(tn_str(a) for a in arrs))
+        meta.append((op, attrs, [np.asarray(a).tolist() for a in arrs], real))
+    ans = yield lines
+    bad = []
+    for (op, attrs, ins, real), a in zip(meta, ans):
+        chk.count({"stage": "tensor-operator", "op": op, "attrs": {k: str(v) for k, v in attrs.items()}, "input": ins,
+                   "ort": real, "lean": a}, nontrivial=True)
+        if a != real:
+            bad.append({"op": op, "attrs": attrs, "input": ins, "ort": real, "lean": a})
+    chk.info("tensor_operator_semantics_vs_ort", {"cases": len(lines), "disagreements": len(bad)})
+    return bad
+
+
 class _DropVar:     # `is_drop_var` falls back on the class name
     pass
 
@@ -752,6 +1032,9 @@ def programs():
         ("argmax_cumsum", lambda v: (jnp.argmax(v), jnp.cumsum(v)[::-1], lax.cumsum(v, reverse=True)),
          [np.array([1, 3, 3, 2, 3], I)]),
     ]
+    # @onnx_function boundaries with twin call sites differing in exactly one aspect (harness/c01_functions.py)
+    import c01_functions
+    P += c01_functions.function_programs()
     return P
 
 
@@ -907,7 +1190,8 @@ def run(chk: Check) -> None:
 
     # all driver requests of the five validation stages go through ONE driver process
     stages = [validate_operators(chk, rng), validate_catalogue(chk, rng, gen, thorough), validate_sweeps(chk, gen),
-              validate_tensor(chk, rng, gen), validate_bind_returned(chk)]
+              validate_tensor(chk, rng, gen), validate_bind_returned(chk),
+              validate_graphs(chk, rng, gen, thorough), validate_gops(chk)]
     reqs = [next(g) for g in stages]
     chk.log(f"real-code side of the correspondence done at {time.time() - t_start:.1f} s "
             f"({sum(len(r) for r in reqs)} driver requests)")
@@ -920,7 +1204,7 @@ def run(chk: Check) -> None:
         except StopIteration as st:
             outs.append(st.value)
         pos += len(r)
-    op_bad, (oracle_mm, tie_bad), sweeps, (t_mm, t_tie), bind_bad = outs
+    op_bad, (oracle_mm, tie_bad), sweeps, (t_mm, t_tie), bind_bad, (g_mm, g_tie, g_jax), gop_bad = outs
     chk.log(f"catalogue validation done at {time.time() - t_start:.1f} s")
 
     # ---- infrastructure-level disagreement: the hand-written semantics contradict the runtime
@@ -932,6 +1216,10 @@ def run(chk: Check) -> None:
     ttie_model = [b for b in t_tie if "(" in b["what"] or b["what"].endswith(":jax")]
     if ttie_model:
         raise RuntimeError(f"Lean tensor-operator / JAX semantics disagree with the runtime: {ttie_model[:5]}")
+    if gop_bad:
+        raise RuntimeError(f"Lean tensor-operator semantics (GOp.eval) disagree with ONNX Runtime: {gop_bad[:5]}")
+    if g_jax:
+        raise RuntimeError(f"Lean JAX-side tensor semantics (jaxSemT) disagree with eager JAX: {g_jax[:5]}")
 
     # ---- findings of the property oracle on the catalogue (real code: ORT vs eager JAX)
     found_input = False
@@ -950,6 +1238,14 @@ def run(chk: Check) -> None:
         key = {"where": "catalogue", "entry": m["entry"], "primitive": m["entry"].rsplit("_", 1)[0], "kind": m["kind"]}
         found_input = True
         chk.finding(key, f"{m['entry']}: ORT {m['ort']} vs JAX {m['jax']} at {m['input']}", {"first": m})
+    ggroups: dict[tuple, list] = {}
+    for m in g_mm:
+        ggroups.setdefault((m["entry"], m["kind"]), []).append(m)
+    for (entry, kind), ms in sorted(ggroups.items()):
+        found_input = True
+        chk.finding({"where": "catalogue", "entry": entry, "primitive": ms[0]["jax_key"].split(" ")[0], "kind": kind},
+                    f"{entry}: ORT {ms[0]['ort']} vs JAX {ms[0]['jax']} at {ms[0]['input']} ({len(ms)} inputs, kind={kind})",
+                    {"first": ms[:5], "count": len(ms), "how": "harness/props/c01.py replay"})
     for sw in sweeps:
         e = sw["entry"]
         if sw["rejected"] is not None:
@@ -987,7 +1283,9 @@ def run(chk: Check) -> None:
 
     # ---- correspondence broken (translator / recipe / binding rule) -----------------------
     recipe_tie = [b for b in tie_bad if b["what"] in ("recipe", "sweep")] + \
-                 [b for b in t_tie if b not in ttie_model]
+                 [b for b in t_tie if b not in ttie_model] + g_tie + \
+                 [{"what": "recipe-not-length-generic", "entry": k, "extents": v["not_length_generic"]}
+                  for k, v in chk.coverage.get("dataflow_entries", {}).items() if v.get("not_length_generic")]
     if recipe_tie:
         chk.violation({"correspondence": "regenerated recipe (Lean evaluation) differs from ONNX Runtime on the real "
                                          "exported model — the translator or the operator vocabulary no longer covers "
@@ -1124,6 +1422,18 @@ def replay(path: str) -> int:
         return 1 if r["status"] != "ok" else 0
     if rep.get("finding_key", {}).get("where") == "catalogue":
         gen = generate()
+        if rep["finding_key"].get("entry") in {e.name for e in gen["gentries"]}:
+            chk = Check("C01", "quick", int(rep.get("seed", 0)))
+            stage = validate_graphs(chk, common.Rng(int(rep.get("seed", 0))), gen, False)
+            lines = next(stage)
+            try:
+                stage.send(common.run_driver("C01", lines))
+                mm = []
+            except StopIteration as st:
+                mm = st.value[0]
+            hits = [m for m in mm if m["entry"] == rep["finding_key"]["entry"]]
+            print("mismatches now:", hits[:5])
+            return 1 if hits else 0
         chk = Check("C01", "quick", int(rep.get("seed", 0)))
         stage = validate_catalogue(chk, common.Rng(int(rep.get("seed", 0))), gen, False)
         lines = next(stage)
